@@ -113,7 +113,7 @@ impl Check for C14 {
     }
     fn cases(&self, tier: Tier) -> u64 {
         match tier {
-            Tier::Quick => 1200 + 39,
+            Tier::Quick => 1200 + 39 + 26,
             Tier::Thorough => 24000,
         }
     }
@@ -131,8 +131,15 @@ impl Check for C14 {
         // the last 500): commands with SEVERAL Channel<T> parameters (generated commands have at
         // most one) - whatever the record keeps per command as a collection meets more than one element
         let multi_chan = match tier {
-            Tier::Quick => i >= 1200,
+            Tier::Quick => (1200..1239).contains(&i),
             Tier::Thorough => i >= 23500,
+        };
+        // second directed block (quick: 26 histories, thorough: 500): before the first repeat run a
+        // generated file is replaced by a symbolic link to a copy of itself kept next to the
+        // output directory (bindings shared with another package). Nothing changed: still a hit.
+        let link_tail = match tier {
+            Tier::Quick => i >= 1239,
+            Tier::Thorough => (23000..23500).contains(&i),
         };
         if multi_chan {
             gp.n_cmds = gp.n_cmds.clamp(1, 2);
@@ -206,7 +213,7 @@ impl Check for C14 {
         }
         let mut cr = r.split("cfg");
         let cfg = gen_cfg(&mut cr, &setup);
-        let force_kind = i % 3 == 2;
+        let force_kind = i % 3 == 2 && !link_tail;
         let mut pr = r.split("procs");
         let n = if force_kind { 3 } else { pr.range(3, 6) };
         let mut procs: Vec<ProcSpec> = (0..n).map(|_| gen_proc(&mut pr)).collect();
@@ -236,7 +243,13 @@ impl Check for C14 {
         let mut br = r.split("between");
         let between: Vec<Option<(String, String)>> = (0..n)
             .map(|k| {
-                if k == 0 || force_kind || (i / 11) % 4 != 2 {
+                if link_tail {
+                    if k == 1 {
+                        Some(("link".to_string(), ["types.ts", "commands.ts", "index.ts"][(i % 3) as usize].to_string()))
+                    } else {
+                        None
+                    }
+                } else if k == 0 || force_kind || (i / 11) % 4 != 2 {
                     None
                 } else if k + 1 < n && br.chance(1, 3) {
                     Some(("lose".to_string(), br.pick(&["types.ts", "commands.ts", "index.ts"]).to_string()))
@@ -382,9 +395,19 @@ impl Check for C14 {
             let mut hits = 0;
             for k in 1..c.procs.len() {
                 let mut restoring = false;
+                let mut linked: Option<String> = None;
                 if let Some(Some((what, name))) = c.between.get(k) {
                     let p = w.out_dir(&c.setup).join(name);
-                    if what == "lose" {
+                    if what == "link" {
+                        let out = w.out_dir(&c.setup);
+                        let target = out.parent().map(|d| d.join(format!(".shared-{}", name)));
+                        if let (true, Some(t)) = (p.is_file(), target) {
+                            if std::fs::copy(&p, &t).is_ok() && std::fs::remove_file(&p).is_ok() && std::os::unix::fs::symlink(&t, &p).is_ok() {
+                                linked = Some(name.clone());
+                                co.count("repeat_runs_over_a_generated_file_replaced_by_a_link_to_it", 1);
+                            }
+                        }
+                    } else if what == "lose" {
                         if p.is_file() {
                             let _ = std::fs::remove_file(&p);
                             restoring = true;
@@ -449,6 +472,25 @@ impl Check for C14 {
                     .filter(|(n, b)| after_files.get(*n) != Some(b))
                     .map(|(n, _)| n)
                     .collect();
+                if let Some(name) = &linked {
+                    // the linked file is no regular file of the snapshot: look for it in the trace
+                    let wrote: Vec<String> = r
+                        .res
+                        .trace
+                        .iter()
+                        .filter(|e| !e.frozen && e.ret >= 0 && matches!(e.op, Op::OpenW | Op::Unlink | Op::Rename | Op::Truncate) && e.path.starts_with(&format!("{}/", out_root)) && e.path.rsplit('/').next() == Some(name.as_str()))
+                        .map(|e| format!("{}:{}", e.op.name(), name))
+                        .collect();
+                    let still_link = std::fs::symlink_metadata(w.out_dir(&c.setup).join(name)).map(|m| m.file_type().is_symlink()).unwrap_or(false);
+                    if !wrote.is_empty() || !still_link || !touched.is_empty() || !changed.is_empty() {
+                        co.violate(
+                            "C14/spurious-regen/linked-output".into(),
+                            "A: re-running with unchanged sources and configuration leaves every output file untouched",
+                            format!("run {} ({}): {} had been replaced by a link to an identical file; the run touched {:?} {:?}, changed {:?}, still a link: {}", k, c.setup.label(), name, wrote, touched, changed, still_link),
+                        );
+                        break;
+                    }
+                }
                 if restoring {
                     // this run is allowed (required) to write: the lost file must be back
                     if let Some(Some((_, name))) = c.between.get(k) {
